@@ -102,8 +102,17 @@ def arr_same(a, b):
 def rand_key(nrng, shape):
     """an index expression valid (mostly) for arrays of this shape."""
     nd = len(shape)
-    kind = nrng.integers(0, 9)
+    kind = nrng.integers(0, 13)
     n0 = shape[0]
+    # the same index expressions as plain Python lists / NumPy scalars (what x[key] accepts, p[key] accepts)
+    if kind == 9:
+        return (nrng.random(n0) < 0.5).tolist()                      # boolean mask as a list of bools
+    if kind == 10:
+        return nrng.integers(-n0, n0, int(nrng.integers(0, 6))).tolist() if n0 else []
+    if kind == 11:
+        return np.int64(nrng.integers(-n0, n0)) if n0 else 0
+    if kind == 12:
+        return (nrng.random(shape) < 0.5).tolist() if len(shape) >= 2 else [True] * n0
     if kind == 0:
         return int(nrng.integers(-n0, n0)) if n0 else 0
     if kind == 1:
@@ -310,15 +319,17 @@ def run_case(case, obs):
         z = a.separation(a)
         obs.check(bool(np.all(np.asarray(z) == 0)), 'separation-self-nonzero', 'sep(a,a) != 0', 'separation')
     elif lane == 'rotate':
-        x, y = rand_arr(nrng, sx, 'float64'), rand_arr(nrng, sx, 'float64')
+        rdt = case['dt'] if (case['rs'] % 3 == 0 and np.dtype(case['dt']).kind == 'i') else 'float64'          # integer coordinates are coordinates too
+        x, y = rand_arr(nrng, sx, rdt), rand_arr(nrng, sx, rdt)
         p = PixCoord(x, y)
         prng = random.Random(case['rs'])
         ang1, ang2 = gen.angle_spec(prng), gen.angle_spec(prng)
         A1, A2 = S.build(ang1), S.build(ang2)
         t1, t2 = float(A1.to_value(u.rad)), float(A2.to_value(u.rad))
         scale = float(np.max(np.abs(np.asarray(x, dtype=float)), initial=1.0))
-        ckind = nrng.integers(3)
-        cx, cy = [(0.0, 0.0), (float(nrng.normal(0, scale)), float(nrng.normal(0, scale))), (1e4 * scale, -1e4 * scale)][ckind]
+        ckind = nrng.integers(4)
+        cx, cy = [(0.0, 0.0), (float(nrng.normal(0, scale)), float(nrng.normal(0, scale))), (1e4 * scale, -1e4 * scale),
+                  (int(nrng.integers(-50, 50)), int(nrng.integers(-50, 50)))][ckind]          # the last: genuine Python ints
         c = PixCoord(cx, cy)
         nd = len(sx)
         try:
